@@ -763,8 +763,13 @@ func (m *MsgBridgeCall) validateBasic() (err error) {
 	if err = ValidateExternalAddr(m.ChainName, m.To); err != nil {
 		return sdkerrors.ErrInvalidAddress.Wrapf("invalid to address: %s", err)
 	}
-	if m.Value.Sign() != 0 {
+	if m.Value.IsNil() || !m.Value.IsZero() {
 		return sdkerrors.ErrInvalidRequest.Wrap("value must be zero")
+	}
+	for _, coin := range m.Coins {
+		if coin.IsNil() {
+			return sdkerrors.ErrInvalidCoins.Wrap("coin amount is nil")
+		}
 	}
 	if err = m.Coins.Validate(); err != nil {
 		return sdkerrors.ErrInvalidCoins.Wrap(err.Error())
